@@ -7,6 +7,7 @@ import concurrent.futures as cf
 import itertools
 import json
 import os
+import re
 import sys
 
 sys.path.insert(0, os.path.dirname(os.path.abspath(__file__)))
@@ -194,6 +195,132 @@ def impl_assignment(obs):
     return spec, modifier
 
 
+PROP_POOL = ["a", "bb", "c", "dd", "e", "ff"]
+
+
+def gen_hierarchies(rng, n):
+    """Random class hierarchies (single and multiple inheritance) with inherited / overridden / additive / dynamic / final
+    defaults; dependencies only on lower-numbered properties that are defined in the class or an ancestor (acyclic, present).
+    -> [[ [name, [bases], [[prop, deps, additive, dynamic, final]...]], ...]]  (only hierarchies Python's C3 accepts)"""
+    out = []
+    while len(out) < n:
+        k = rng.randint(2, 5)
+        hier, shadow, avail = [], {}, {}
+        ok = True
+        for i in range(k):
+            name = "K%d" % i
+            bases = [] if i == 0 or rng.random() < 0.15 else sorted(rng.sample(["K%d" % j for j in range(i)], min(i, rng.choice([1, 1, 1, 2]))))
+            try:
+                shadow[name] = type(name, tuple(shadow[b] for b in bases) or (object,), {})
+            except TypeError:
+                ok = False
+                break
+            inherited = set()
+            for b in shadow[name].__mro__[1:]:
+                inherited |= avail.get(b.__name__, set())
+            props = []
+            own = set()
+            for idx, pname in enumerate(PROP_POOL):
+                if rng.random() < (0.45 if pname not in inherited else 0.3):
+                    cand = [q for q in PROP_POOL[:idx] if q in inherited or q in own]
+                    deps = sorted(rng.sample(cand, rng.randint(0, min(2, len(cand))))) if rng.random() < 0.6 else []
+                    r = rng.random()
+                    additive, dynamic = r < 0.25, 0.25 <= r < 0.45
+                    props.append([pname, deps, additive, dynamic, rng.random() < 0.15])
+                    own.add(pname)
+            avail[name] = own
+            hier.append([name, bases, props])
+        if ok:
+            out.append(hier)
+    return out
+
+
+def hier_mro(hier):
+    shadow, out = {}, {}
+    for name, bases, _ in hier:
+        shadow[name] = type(name, tuple(shadow[b] for b in bases) or (object,), {})
+        out[name] = [c.__name__ for c in shadow[name].__mro__ if c is not object]
+    return out
+
+
+def check_merge(c, it, exe, entries):
+    """entries: [(ident dict, mro = [[class name, [[prop, {deps, additive, dynamic, final}]...]]...] most derived first,
+    impl = class_info dict | {'error': exception class, 'msg': ...})]: extracted merge_defaults vs implementation."""
+    lines = []
+    for ident, mro, impl in entries:
+        t = ["M", str(len(mro))]
+        for _, props in mro:
+            t.append(str(len(props)))
+            for p, d in props:
+                t += [str(it.prop(p)), str(len(d["deps"]))] + [str(it.prop(x)) for x in d["deps"]]
+                t += ["1" if d["additive"] else "0", "1" if d["dynamic"] else "0", "1" if d["final"] else "0"]
+        lines.append(" ".join(t))
+    outs = common.run_driver(exe, lines) if lines else []
+    for (ident, mro, impl), o in zip(entries, outs):
+        c.count(("merge", json.dumps(ident, sort_keys=True), json.dumps(mro)), nontrivial=len(mro) > 1)
+        c.hist("merge-defaults:" + ident.get("source", "class") + (":overrides-final" if o.startswith("OVR") else ""))
+        c.cov["disagreements_checked"] += 1
+        if "error" in impl:
+            m = re.search(r'"([^"]+)" property cannot be overridden', impl.get("msg", ""))
+            okm = o.startswith("OVR ") and impl["error"] == "InvalidScenarioError" and m is not None and it.prop(m.group(1)) == int(o.split()[1])
+        else:
+            impl_d = [(it.prop(p), sorted(it.prop(x) for x in r["deps"])) for p, r in impl["defaults"]]
+            okm = o.startswith("OK D ")
+            if okm:
+                dpart, rest = o[5:].split(" F ")
+                fpart, ypart = rest.split(" Y ")
+                model_d = []
+                for item in [x for x in dpart.split(",") if x]:
+                    p, ds = item.split("=")
+                    model_d.append((int(p), sorted(int(x) for x in ds.split("+") if x)))
+                model_f = sorted(int(x) for x in fpart.split(",") if x)
+                model_y = sorted(int(x) for x in ypart.strip().split(",") if x)
+                okm = (model_d == impl_d and model_f == sorted(it.prop(x) for x in impl["finals"])
+                       and model_y == sorted(it.prop(x) for x in impl["dynamics"])
+                       and all(r["name"] == "PropertyDefault" and r["prios"] == [[p, -1]] and not r["mod"] for p, r in impl["defaults"]))
+        if not okm:
+            names = {v: k for k, v in it.props.items()}
+            c.violation("merge-defaults", "class-level merging of defaults differs between model (merge_defaults) and implementation",
+                        dict(ident, mro=[[n, [[p, d["deps"], "additive" * d["additive"], "dynamic" * d["dynamic"], "final" * d["final"]] for p, d in props]] for n, props in mro][:8],
+                             model=o[:300], property_numbers={str(k): names[k] for k in sorted(names)[:40]},
+                             impl_error=[impl.get("error"), impl.get("msg")] if "error" in impl else None,
+                             impl_defaults=[[p, r["deps"]] for p, r in impl.get("defaults", [])][:40],
+                             impl_finals=impl.get("finals"), impl_dynamics=impl.get("dynamics")))
+
+
+def merge_stage(c, it, exe, quick):
+    """Runs before (and independently of) the Scenic context program: a defect in the class machinery that makes
+    Scenic's own classes unloadable is still pinned down to a concrete class."""
+    hiers = gen_hierarchies(c.rng, 150 if quick else 1500)
+    r = common.run_impl("impl_c06.py", dict(kind="merge", hiers=hiers), timeout=1200)
+    if "crash" in r:
+        c.violation("harness", "the class-merging probe crashed", dict(crash=r["crash"], tb=r.get("tb")), no_input=True)
+        return
+    entries = []
+    if r.get("import_error"):
+        c.cov["object_types_import_error"] = r["import_error"]
+    for cname, ci in r["builtin"].items():
+        if "error" in ci:
+            c.violation("harness", "class could not be introspected", dict(cls=cname, error=ci["error"]), no_input=True)
+            continue
+        entries.append((dict(source="builtin", cls=cname), ci["mro"], ci))
+    for hier, res in zip(hiers, r["hiers"]):
+        mros = hier_mro(hier)
+        props = {name: [[p, dict(deps=deps, additive=a, dynamic=d, final=f)] for p, deps, a, d, f in pl] for name, _, pl in hier}
+        for rec in res:
+            if "skipped" in rec:
+                c.hist("merge-defaults:skipped-base-failed")
+                continue
+            if rec["mro"] != mros[rec["name"]]:
+                c.violation("harness", "MRO computed by the harness differs from the implementation's", dict(rec=rec), no_input=True)
+                continue
+            mro = [[n, props[n]] for n in rec["mro"]]
+            ident = dict(source="generated", cls=rec["name"], hierarchy=[[n, b] for n, b, _ in hier])
+            entries.append((ident, mro, rec["info"] if "info" in rec else dict(error=rec["error"], msg=rec.get("msg", ""))))
+    check_merge(c, it, exe, entries)
+    c.cov["merge_classes"] = len(entries)
+
+
 def main():
     c = Check(PID, "proof")
     c.cov["rule"] = ("every catalogue instance of every built-in specifier (real syntax; vector / Point / OrientedPoint / Object / "
@@ -213,6 +340,9 @@ def main():
         case = body.get("case", {})
         if "insts" in case and "cls" in case:
             groups = [(case["cls"], tuple(sorted(case["insts"])))]
+    it = Intern()
+    if not c.replay:
+        merge_stage(c, it, exe, quick)
     jobs = []
     for mode2D in (False, True):
         for cls, sub in groups:
@@ -242,9 +372,8 @@ def main():
             tables.setdefault(mode2D, r["table"])
             classes.setdefault(mode2D, r["classes"])
             results += list(zip(part, r["cases"]))
-    if c.violations:
+    if any(v[0] == "harness" for v in c.violations):
         c.finish()
-    it = Intern()
 
     # ---- (G) regenerated tables: code vs reference
     doc_path = os.path.join(common.REPO, "docs/reference/specifiers.rst")
@@ -335,42 +464,15 @@ def main():
         elif not ok:
             c.cov["gen_log"] = out[-600:]
 
-    # ---- class-level merging of defaults: model vs implementation
-    lines, meta = [], []
+    # ---- class-level merging of defaults of the classes of the context program: model vs implementation
+    entries = []
     for mode2D in (False, True):
         for cname, ci in classes[mode2D].items():
             if "error" in ci:
                 c.violation("harness", "class could not be introspected", dict(cls=cname, error=ci["error"]), no_input=True)
                 continue
-            t = ["M", str(len(ci["mro"]))]
-            for _, props in ci["mro"]:
-                t.append(str(len(props)))
-                for p, d in props:
-                    t += [str(it.prop(p)), str(len(d["deps"]))] + [str(it.prop(x)) for x in d["deps"]]
-                    t += ["1" if d["additive"] else "0", "1" if d["dynamic"] else "0", "1" if d["final"] else "0"]
-            lines.append(" ".join(t))
-            meta.append((mode2D, cname, ci))
-    outs = common.run_driver(exe, lines) if lines else []
-    for (mode2D, cname, ci), o in zip(meta, outs):
-        impl_d = [(it.prop(p), sorted(it.prop(x) for x in r["deps"])) for p, r in ci["defaults"]]
-        c.count(("merge", mode2D, cname), nontrivial=len(ci["mro"]) > 1)
-        c.hist("merge-defaults:classes")
-        okm = o.startswith("OK D ")
-        if okm:
-            dpart, rest = o[5:].split(" F ")
-            fpart, ypart = rest.split(" Y ")
-            model_d = []
-            for item in [x for x in dpart.split(",") if x]:
-                p, ds = item.split("=")
-                model_d.append((int(p), sorted(int(x) for x in ds.split("+") if x)))
-            model_f = sorted(int(x) for x in fpart.split(",") if x)
-            model_y = sorted(int(x) for x in ypart.strip().split(",") if x)
-            okm = (model_d == impl_d and model_f == sorted(it.prop(x) for x in ci["finals"])
-                   and model_y == sorted(it.prop(x) for x in ci["dynamics"]))
-        if not okm:
-            c.violation("merge-defaults", "class-level merging of defaults differs between model and implementation",
-                        dict(cls=cname, mode2D=mode2D, model=o[:400], impl_defaults=[[p, r["deps"]] for p, r in ci["defaults"]][:40],
-                             impl_finals=ci["finals"], impl_dynamics=ci["dynamics"]))
+            entries.append((dict(source="program", cls=cname, mode2D=mode2D), ci["mro"], ci))
+    check_merge(c, it, exe, entries)
 
     # ---- (H) resolution: model vs implementation, case by case
     lines, idx = [], []
@@ -401,31 +503,54 @@ def main():
         for p, r in ci["defaults"]:
             lab2key["default:" + p] = f"0:{it.prop(p)}"
 
+        hooks = bool(obs.get("hooks"))
+        stage = obs["stage"]
+        if not hooks and stage == "resolve" and not obs.get("is_specifier_error"):
+            stage = "eval"   # without the internal hooks an evaluation failure cannot be told from its position
+
+        # what public syntax alone shows: which logging values / default expressions were evaluated, in which order
+        pub_tag = {k: k for k in job["insts"] if k in cat.PUBLIC_INSTS}
+        for cn, _ in ci["mro"]:
+            for p in cat.PUBLIC_DEFAULTS.get(cn, []):
+                pub_tag.setdefault("default:" + p, f"{cn}.{p}")   # most derived class first
+        key2tag = {lab2key[l]: t for l, t in pub_tag.items() if l in lab2key}
+
         def agrees(m):
             if m.startswith("ERR"):
-                if obs["stage"] != "resolve" or not obs.get("is_specifier_error"):
+                if stage != "resolve" or not obs.get("is_specifier_error"):
                     return False
                 return obs.get("kind") in (None, m.split()[1])
             if not m.startswith("OK P "):
                 return False
-            if obs["stage"] == "resolve":
+            if stage == "resolve":
                 return False
             ppart, rest = m[5:].split(" M ")
             mpart, opart = rest.split(" O ")
             mp = dict(x.split("=") for x in ppart.split(",") if x)
             mm = dict(x.split("=") for x in mpart.split(",") if x)
             mo = [x for x in opart.strip().split(",") if x]
+            want_pub = [key2tag[x] for x in mo if x in key2tag]
+            got_pub = obs.get("pub") or []
+            if stage == "ok" and got_pub != want_pub:
+                return False
+            if stage != "ok" and got_pub != want_pub[:len(got_pub)]:
+                return False
+            if not hooks:
+                return True
             io = [lab2key.get(l, l) for l in obs["order"]]
             s, g = impl_assignment(obs)
             ip = {str(it.prop(p)): lab2key.get(l, l) for p, l in s.items()}
             im = {str(it.prop(p)): lab2key.get(l, l) for p, l in g.items()}
-            if obs["stage"] == "ok":
+            if stage == "ok":
                 return io == mo and ip == mp and im == mm
             # evaluation of some specifier failed after resolution: what was done must be a prefix
             return io == mo[:len(io)] and all(mp.get(p) == k for p, k in ip.items()) and all(mm.get(p) == k for p, k in im.items())
 
         a_new, a_old = agrees(new), agrees(old)
-        verdict[n] = dict(new=new, old=old, agrees_new=a_new, agrees_old=a_old)
+        verdict[n] = dict(new=new, old=old, agrees_new=a_new, agrees_old=a_old, stage=stage, hooks=hooks)
+        c.hist("observation:" + ("internal-hooks+public" if hooks else "public-only"))
+        if obs.get("pub"):
+            c.hist("public-log:nonempty")
 
     # ---- group-level oracles and reporting (one violation per group at most)
     bygroup = {}
@@ -454,8 +579,9 @@ def main():
             c.count((mode2D, cls, job["insts"]), nontrivial=nontrivial)
             c.cov["traces_validated_against_impl"] += 1
             v = verdict[n]
+            hooks = v["hooks"]
             summary = dict(stage=obs["stage"], exc=obs.get("exc"), msg=obs.get("msg"), kind=obs.get("kind"),
-                           order=obs["order"], assign=obs["assign"])
+                           order=obs["order"], assign=obs["assign"], public_log=obs.get("pub"), internal_hooks=hooks)
             base = dict(mode2D=mode2D, cls=cls, insts=job["insts"], syntax=[INST[k]["syntax"] for k in job["insts"]],
                         impl=summary, tie_shadowed=bool(shadow), modifier_on_final=bool(mod_final),
                         impl_matches_old_model=bool(v["agrees_old"]))
@@ -465,21 +591,21 @@ def main():
                 c.violation("correspondence", "implementation and model of specifier resolution disagree",
                             dict(base, model=v["new"][:600], model_old=v["old"][:300]))
             s, g = impl_assignment(obs)
-            resolved = obs["stage"] in ("ok", "eval")
-            sigs.append((n, ("resolved", tuple(sorted(s.items())), tuple(sorted(g.items()))) if obs["stage"] == "ok"
+            resolved = v["stage"] in ("ok", "eval")
+            sigs.append((n, ("resolved", tuple(sorted(s.items())), tuple(sorted(g.items())), tuple(sorted(obs.get("pub") or []))) if obs["stage"] == "ok"
                          else (("resolved",) if resolved else ("error",))))
             # documented procedure, order-free
             want = doc_resolve(rows, [(p, r) for p, r in ci["defaults"]], finals)
             if want is not None and not reported:
                 bad = (want[0] == "err") != (not resolved)
-                if not bad and obs["stage"] == "ok":
+                if not bad and obs["stage"] == "ok" and hooks:
                     bad = want[1] != s or want[2] != g
                 if bad:
                     reported = True
                     c.violation("oracle", "outcome differs from the reference's resolution procedure",
                                 dict(base, reference=[want[0], want[1] if want[0] == "err" else None]))
             # evaluation order respects dependencies
-            if obs["stage"] == "ok" and not reported:
+            if obs["stage"] == "ok" and not reported and hooks:
                 pos = {l: i for i, l in enumerate(obs["order"])}
                 allrows = dict(rows)
                 for p, r in ci["defaults"]:
@@ -521,7 +647,9 @@ def main():
     c.assumptions += [
         "model = hand-written Gallina (coq/C06/Specifier.v) tied to the code by this differential run and the regenerated tables",
         "specifier attributes read by introspection: Specifier.name/priorities/requiredProperties, ModifyingSpecifier.modifiable_props, "
-        "cls._defaults/_finalProperties/_dynamicProperties/_scenic_properties; evaluation observed by wrapping Specifier.getValuesFor and Constructible._specify",
+        "cls._defaults/_finalProperties/_dynamicProperties/_scenic_properties; evaluation observed (a) through public syntax: logging DelayedArgument values "
+        "(rt.lazy) and rt.note(...) calls inside default-value expressions, (b) when present, by wrapping Specifier.getValuesFor and Constructible._specify "
+        "(optional: if a refactoring renames them the check continues with (a), error classes and success/failure only)",
         "reference table parsed fail-closed from docs/reference/specifiers.rst; internal (underscore) properties are read as 'also adds a requirement'",
         "extraction via ExtrOcamlBasic only; OCaml compiler; the driver ocaml/c06/driver.ml",
     ]
